@@ -251,6 +251,9 @@ def requery_cases(tier):
 RULE_ROUND8 = ' One generated forest in 20 (60 in the thorough tier) is a BIG one (gen.big_specs: a child list of 11..300 nodes, that many clones of one data object, more than 256 nodes), with node references aimed at notable positions of the long child lists.'
 RULE = RULE + RULE_ROUND8
 
+RULE_ROUND9 = ' Two by-kind iterators of one tree are consumed in lock step; the child queries are also asked of tree.system_root (also of a tree that never had a node).'
+RULE = RULE + RULE_ROUND9
+
 PARTS = [
     Part("kind-patterns", run_pattern, enum=enum_cases),
     Part("random-typed", run_random, strategy=lambda tier: hyp_cases(tier), n={"quick": 600, "thorough": 80000}),
